@@ -677,3 +677,241 @@ func runDigester(c *core.Ctx) {
 		c.Check(derived, "commit-name:"+un, commitOp.Pos(), "the blob's final name / key is derived from the digester's digest: %v", derived)
 	}
 }
+
+func init() {
+	register(&Rule{ID: "TS-LRU-TOUCH", Floor: 2,
+		Doc: "in the cache's lookup every return of a found entry is preceded, on all paths, by a store to that entry's last-use field, and every insertion initialises it: eviction order and expiry are computed from that field, so a use that does not refresh it makes a recently used entry the first to go",
+		Run: func(c *core.Ctx) {
+			r := requireRoles(c)
+			if r == nil {
+				return
+			}
+			type verdict struct {
+				bad string
+				pos token.Pos
+			}
+			res := map[string]*verdict{}
+			for _, fn := range c.P.Funcs("internal/cache") {
+				if fn.TypeParams().Len() > 0 && len(fn.TypeArgs()) == 0 {
+					continue
+				}
+				if fn.Signature.Recv() == nil || fn.Signature.Results().Len() != 2 || !an.IsErrorType(fn.Signature.Results().At(1).Type()) || len(fn.Params) != 2 {
+					continue
+				}
+				// a lookup: reads entries[key] with the key parameter and returns (value, error)
+				var lk *ssa.Lookup
+				an.Instrs(fn, func(in ssa.Instruction) {
+					if l, ok := in.(*ssa.Lookup); ok && l.CommaOk {
+						if _, p := accessPath(l.X); len(p) > 0 && p[len(p)-1] == "entries" && an.Origin(l.Index) == ssa.Value(fn.Params[1]) {
+							lk = l
+						}
+					}
+				})
+				if lk == nil {
+					continue
+				}
+				name := c.P.FuncName(fn)
+				if fn.Origin() != nil {
+					name = c.P.FuncName(fn.Origin())
+				}
+				key := "lookup-refreshes:" + kn(name)
+				bad := ""
+				type st struct{ found, touched bool }
+				an.Paths(an.PathSpec[st]{Fn: fn, Init: st{},
+					Instr: func(s st, in ssa.Instruction) []st {
+						switch x := in.(type) {
+						case *ssa.Store:
+							if _, p := accessPath(x.Addr); len(p) > 0 && isTimeType(an.Deref(x.Addr.Type())) {
+								s.touched = true
+							}
+						case *ssa.Return:
+							if s.found && !s.touched && retErrNil(x) && bad == "" {
+								bad = fmt.Sprintf("the found entry is returned at %s on a path that did not refresh its last-use time", c.P.Pos(x.Pos()))
+							}
+						}
+						return []st{s}
+					},
+					Edge: func(s st, from *ssa.BasicBlock, succ int) (st, bool) {
+						if ifi := an.BlockIf(from); ifi != nil {
+							base, neg := an.CondBase(ifi.Cond)
+							if ex, ok := base.(*ssa.Extract); ok && ex.Tuple == ssa.Value(lk) && ex.Index == 1 {
+								if (succ == 0) != neg {
+									s.found = true
+								}
+							}
+						}
+						return s, true
+					}})
+				v := res[key]
+				if v == nil {
+					v = &verdict{pos: fn.Pos()}
+					res[key] = v
+				}
+				if bad != "" {
+					v.bad = bad
+				}
+			}
+			// insertions initialise the field
+			for _, fn := range c.P.Funcs("internal/cache") {
+				if fn.TypeParams().Len() > 0 && len(fn.TypeArgs()) == 0 {
+					continue
+				}
+				an.Instrs(fn, func(in ssa.Instruction) {
+					mu, ok := in.(*ssa.MapUpdate)
+					if !ok {
+						return
+					}
+					if _, p := accessPath(mu.Map); len(p) == 0 || p[len(p)-1] != "entries" {
+						return
+					}
+					name := c.P.FuncName(fn)
+					if fn.Origin() != nil {
+						name = c.P.FuncName(fn.Origin())
+					}
+					key := "insert-initialises:" + kn(name)
+					okInit := false
+					for f, vals := range structStores(an.Origin(mu.Value)) {
+						_ = f
+						for _, v := range vals {
+							if isTimeType(v.Type()) {
+								okInit = true
+							}
+						}
+					}
+					v := res[key]
+					if v == nil {
+						v = &verdict{pos: mu.Pos()}
+						res[key] = v
+					}
+					if !okInit {
+						v.bad = "a new entry is inserted without setting its last-use time"
+					}
+				})
+			}
+			var keys []string
+			for k := range res {
+				keys = append(keys, k)
+			}
+			sort.Strings(keys)
+			for _, k := range keys {
+				if res[k].bad != "" {
+					c.Fail(k, res[k].pos, "%s: a count-limited cache then evicts by insertion order instead of least-recently-used, and age expiry ignores recent use", res[k].bad)
+				} else {
+					c.Pass(k, res[k].pos, "last-use time set on every path")
+				}
+			}
+		}})
+	register(&Rule{ID: "TS-GETDESC", Floor: 2,
+		Doc: "Index.GetDesc keeps tag and digest lookups apart: on the tag-grammar edge it returns the (copied) annotated entry, on the digest edge a descriptor built without annotations — the delete handler relies on this to remove only the tag in the first case and every reference in the second",
+		Run: func(c *core.Ctx) {
+			r := requireRoles(c)
+			if r == nil {
+				return
+			}
+			var fn *ssa.Function
+			for _, f := range c.P.Funcs("types") {
+				if f.Name() == "GetDesc" && f.Signature.Recv() != nil {
+					fn = f
+				}
+			}
+			if fn == nil {
+				c.Unresolved("types.Index.GetDesc", "GetDesc not found")
+				return
+			}
+			tagOK, digOK := true, true
+			nTag, nDig := 0, 0
+			an.Instrs(fn, func(in ssa.Instruction) {
+				ret, ok := in.(*ssa.Return)
+				if !ok || len(ret.Results) != 2 || !retErrNil(ret) {
+					return
+				}
+				onTag, onDigest := false, false
+				for _, g := range an.GuardingEdges(ret.Block()) {
+					if call, trueSucc, ok := an.BoolCallTest(g.If()); ok && an.IsMethod(call, "regexp", "Regexp", "MatchString") && an.IsGlobalLoad(call.Call.Args[0], r.TypesPath, "RefTagRE") {
+						if g.Succ == trueSucc {
+							onTag = true
+						} else {
+							onDigest = true
+						}
+					}
+				}
+				v := ret.Results[0]
+				if u, isLoad := v.(*ssa.UnOp); isLoad && u.Op == token.MUL {
+					// defer-free function: the value is a load of a composite literal or a call result
+					v = u
+				}
+				switch {
+				case onTag:
+					nTag++
+					call, _ := an.CallOf(an.Origin(v))
+					if call == nil || !an.IsMethod(call, r.TypesPath, "Descriptor", "Copy") {
+						tagOK = false
+					}
+				case onDigest:
+					nDig++
+					ss := structStores(an.Origin(v))
+					if len(ss) == 0 {
+						if u, ok := v.(*ssa.UnOp); ok {
+							ss = structStores(u)
+						}
+					}
+					if _, has := ss["Annotations"]; has || len(ss) == 0 {
+						digOK = false
+					}
+				}
+			})
+			c.Check(tagOK && nTag > 0, "tag-lookup-returns-annotated-copy", fn.Pos(), "a tag lookup returns Copy() of the annotated index entry (%d return site(s)): %v", nTag, tagOK && nTag > 0)
+			c.Check(digOK && nDig > 0, "digest-lookup-returns-bare-descriptor", fn.Pos(), "a digest lookup returns a descriptor built without annotations (%d return site(s)): %v — otherwise deleting by digest only removes one tag", nDig, digOK && nDig > 0)
+		}})
+	register(&Rule{ID: "LK-GLOBALS", Floor: 1,
+		Doc: "package-level variables of the module are only written by package initialisation: a store to one from any other function would be an unsynchronised write visible to every request",
+		Run: func(c *core.Ctx) {
+			n, bad := 0, 0
+			for _, fn := range c.P.ModFuncs {
+				if fn.Name() == "init" || strings.HasPrefix(fn.Name(), "init#") || strings.HasPrefix(core.FuncPkgPath(fn), c.P.Module+"/cmd/") || strings.HasSuffix(core.FuncPkgPath(fn), "/internal/copy") {
+					continue
+				}
+				top := fn
+				for top.Parent() != nil {
+					top = top.Parent()
+				}
+				if top.Name() == "init" || strings.HasPrefix(top.Name(), "init#") {
+					continue
+				}
+				an.Instrs(fn, func(in ssa.Instruction) {
+					st, ok := in.(*ssa.Store)
+					if !ok {
+						return
+					}
+					root := baseGlobal(st.Addr)
+					if root == nil || root.Pkg == nil || !strings.HasPrefix(root.Pkg.Pkg.Path(), c.P.Module) {
+						return
+					}
+					bad++
+					c.Fail(fmt.Sprintf("global-write:%s.%s|%s", root.Pkg.Pkg.Name(), root.Name(), kn(c.P.FuncName(fn))), st.Pos(), "package-level variable %s.%s is written in %s, outside package initialisation: concurrent requests race on it", root.Pkg.Pkg.Name(), root.Name(), c.P.FuncName(fn))
+				})
+				n++
+			}
+			if bad == 0 {
+				c.Pass("globals", token.NoPos, "%d functions scanned: no package-level variable of the module is written outside initialisation", n)
+			}
+		}})
+}
+
+func isTimeType(t types.Type) bool { return isNamed(t, "time", "Time") }
+
+func baseGlobal(v ssa.Value) *ssa.Global {
+	for i := 0; i < 8; i++ {
+		switch x := v.(type) {
+		case *ssa.Global:
+			return x
+		case *ssa.FieldAddr:
+			v = x.X
+		case *ssa.IndexAddr:
+			v = x.X
+		default:
+			return nil
+		}
+	}
+	return nil
+}
